@@ -15,7 +15,7 @@ DURS = ['0', '0', '0.15', '0.4', '100000', '100000', 'inc']
 def gen_prev(r, tier):
     n = r.choice([3, 8, 20, 60])
     items = ['%d %s' % (k, r.choice(DURS)) for k in range(n)]
-    kind = r.choice(['plain', 'plain', 'query', 'plus', 'file'])
+    kind = r.choice(['plain', 'plain', 'query', 'plus', 'file', 'index'])
     steps = []
     for _ in range(r.randrange(2, 14)):
         k = r.random()
@@ -84,7 +84,8 @@ def run_prev(fzf, tmp, sc):
         def mkcmd(kind):
             if kind == 'slowhead':
                 return ('x={}; k=${x%%%% *}; echo "S $$ $k q="\'\' >> %s; sleep 0.8; echo "OUT $k"; echo "L2 $k"; echo "L3 $k"' % log)
-            body = {'plain': 'echo "OUT $k"', 'query': 'echo "OUT $k" {q}', 'plus': 'echo "OUT $k"; echo SEL {+}', 'file': 'echo "OUT $k"; cat {f}'}[kind]
+            body = {'plain': 'echo "OUT $k"', 'query': 'echo "OUT $k" {q}', 'plus': 'echo "OUT $k"; echo SEL {+}', 'file': 'echo "OUT $k"; cat {f}',
+                    'index': 'echo "OUT $k"; echo "N="{n}"="'}[kind]
             return ('x={}; k=${x%% *}; d=${x#* }; echo "S $$ $k q="%s >> %s; %s; '
                     'if [ "$d" = inc ]; then for i in 1 2 3 4 5; do echo "line $i"; sleep 0.05; done; else exec sleep $d; fi'
                     % ('{q}' if kind == 'query' else "''", log, body))
@@ -142,7 +143,9 @@ def run_prev(fzf, tmp, sc):
                     time.sleep(0.1)
             elif cur:
                 for _ in range(10):
-                    if any(('OUT %s' % curk) in row for row in s.capture()):
+                    rows = s.capture()
+                    # with {n} in the template the ordinal shown is the current item's (items are numbered as their keys)
+                    if any(('OUT %s' % curk) in row for row in rows) and (kind != 'index' or any(('N=%s=' % curk) in row for row in rows)):
                         shown = 1
                         break
                     time.sleep(0.1)
